@@ -35,7 +35,8 @@ Definition CI (h j : Z) (d : bool) (nj : Z) (inl : bool) (x : conn) : Prop :=
   match c_ph x with
   | PNone => c_alloc x = false /\ c_uref x = 0 /\ h = 0 /\ j = 0 /\ nj = 0 /\ inl = false /\ c_reg x = false
   | P0 => False
-  | PDead => c_uref x = 0 /\ h = 0 /\ j = 0 /\ nj = 0 /\ inl = false /\ c_reg x = false /\ (c_alloc x = true -> c_rc x = 0)
+  | PDead => c_uref x = 0 /\ h = 0 /\ j = 0 /\ nj = 0 /\ inl = false /\ c_reg x = false /\ (c_alloc x = true -> c_rc x = 0) /\
+             (d = false -> c_alloc x = false)
   | p => c_alloc x = true /\ c_rc x = init_of (c_st x) + c_uref x + h + jw j + nj /\ 1 <= c_rc x /\
          (c_reg x = true -> c_st x = ACTIVE \/ c_st x = ESTABLISHED) /\
          (j = 3 -> p = PAcc /\ c_st x = INACTIVE /\ inl = false /\ c_reg x = false) /\
